@@ -37,6 +37,10 @@ SUMMARY = {
 'c08i':'non-match chunks shorter than 1 KiB are coalesced in a pending buffer; chunks >= 1 KiB are written straight through without flushing it first: bytes come out reordered',
 'c17k':'rare-byte prefilters remember scans that skipped >= 4096 bytes, keyed by haystack address only: a later search over different bytes at the same address skips real matches',
 'c18j':'for patterns >= 256 bytes fill() tops the buffer up in a second loop that treats Ok(0) and Err alike as "stop": a transient read error inside it vanishes',
+'c07j':'prefilter fast path in the stream loop that leaves a tail of min_pattern_len-1 instead of max_pattern_len-1 bytes (rare-byte prefilter, unequal pattern lengths, boundary inside the longer match)',
+'c08j':'new trait method stream_lookbehind_len, overridden by the noncontiguous NFA with its (0-based, one too small) state depth: the pre-roll flush hands out the first byte of a match that straddles a refill (noncontiguous NFA only)',
+'c17l':'noncontiguous NFA keeps a shared (index, link) cursor in an AtomicU64 for match_pattern: any other search between two steps of an overlapping search makes it report wrong pattern ids',
+'c18k':'the table entry point runs its own loop `while let Some(Ok(chunk))`: a read error ends replacement quietly with Ok(())',
 'c18a':'fill returns Ok(true) instead of the error when it had already buffered bytes in the same call: one-shot read errors during the initial fill vanish',
 'c18b':'closure errors of kind Interrupted are retried by calling the closure again: error swallowed, partial output duplicated',
 'c18c':'fill commits its new end only after the loop: an error on a later read of one fill discards bytes accepted earlier; polling on shifts all later offsets',
